@@ -1,5 +1,6 @@
 import Mitx.Model.Comparers
 import Mitx.Props.C04
+import Mitx.Lemmas.LeastSquares
 import Mathlib.Algebra.Order.Floor.Ring
 import Mathlib.Data.Rat.Floor
 import Mathlib.Tactic.Linarith
@@ -407,6 +408,75 @@ theorem linear_zero_rule {cfg : LinCfg} {x y : List Rat} {tol : Tolerance} {r : 
     refine ⟨m, ?_, hr⟩
     have := (List.mem_filter.mp hm).2
     cases m <;> simp_all [zeroCompatible]
+
+/-- the shape of the relation `expected = a·student + b` that each mode stands for -/
+def ModeShape : Mode → Rat → Rat → Prop
+  | .equals, a, b => a = 1 ∧ b = 0
+  | .proportional, _, b => b = 0
+  | .offset, a, _ => a = 1
+  | .linear, _, _ => True
+
+theorem nearlyZero_mono {e e' r : Rat} {tol : Tolerance} (h : e ≤ e') (h' : nearlyZero e' r tol = true) : nearlyZero e r tol = true := by
+  cases tol <;> simp only [nearlyZero, Bool.and_eq_true, decide_eq_true_eq] at h' ⊢ <;> exact ⟨h'.1, le_trans h h'.2⟩
+
+/-- the code's fit error of a mode is attained by a line of the mode's shape, and no line of that shape does better -/
+theorem err2_is_least (m : Mode) (x y : List Rat) (h : x.length = y.length) (hn : 0 < x.length) :
+    (∃ a b, ModeShape m a b ∧ err2 m x y = resid2 a b x y) ∧ ∀ a b, ModeShape m a b → err2 m x y ≤ resid2 a b x y := by
+  cases m with
+  | equals =>
+    refine ⟨⟨1, 0, ⟨rfl, rfl⟩, equalsErr2_eq_resid2 x y⟩, ?_⟩
+    rintro a b ⟨rfl, rfl⟩; exact le_of_eq (equalsErr2_eq_resid2 x y)
+  | proportional =>
+    obtain ⟨a, ha⟩ := propErr2_attained x y h
+    refine ⟨⟨a, 0, rfl, ha⟩, ?_⟩
+    intro a b hb; cases hb; exact propErr2_le x y h a
+  | offset =>
+    obtain ⟨b, hb⟩ := offsetErr2_attained x y
+    refine ⟨⟨1, b, rfl, hb⟩, ?_⟩
+    intro a b ha; cases ha; exact offsetErr2_le x y h hn b
+  | linear =>
+    obtain ⟨a, b, hab⟩ := linearErr2_attained x y h hn
+    exact ⟨⟨a, b, trivial, hab⟩, fun a b _ => linearErr2_le x y h hn a b⟩
+
+/-- **A relation counts as holding iff some line of its shape fits the samples within tolerance**: the residual
+`‖a·student + b − expected‖` of some admissible `(a, b)` is within the tolerance, taken relative to the norm of the expected
+samples (fix F12; before it the reference was the norm of the student's samples, so a huge unrelated submission "fitted"). -/
+theorem holds_iff_fit (m : Mode) (x y : List Rat) (tol : Tolerance) (h : x.length = y.length) (hn : 0 < x.length) :
+    holds m x y tol = true ↔
+      ∃ a b, ModeShape m a b ∧ nearlyZero (resid2 a b x y) (sumL (y.map (fun q => q * q))) tol = true := by
+  obtain ⟨⟨a, b, hs, he⟩, hmin⟩ := err2_is_least m x y h hn
+  unfold holds
+  constructor
+  · intro hh; exact ⟨a, b, hs, by rw [← he]; exact hh⟩
+  · rintro ⟨a', b', hs', hh⟩; exact nearlyZero_mono (hmin a' b' hs') hh
+
+/-- **LinearComparer, stated on the relations themselves**: the awarded credit is the largest configured credit among the
+considered relations for which an admissible line fits within tolerance, and it is the credit (and message) of one of them,
+or zero. -/
+theorem linear_credit_spec {cfg : LinCfg} {x y : List Rat} {tol : Tolerance} {r : Rat × String}
+    (hl : x.length = y.length) (h : linearComparer cfg x y tol = .ok r) :
+    let fits := fun m => ∃ a b, ModeShape m a b ∧ nearlyZero (resid2 a b x y) (sumL (y.map (fun q => q * q))) tol = true
+    (∀ m ∈ validModes cfg x y tol, fits m → (cfg.credit m).getD 0 ≤ r.1) ∧
+    (r = (0, "") ∨ ∃ m ∈ validModes cfg x y tol, fits m ∧ r = ((cfg.credit m).getD 0, cfg.msg m)) := by
+  have hn : 0 < x.length := by
+    by_contra hc
+    have : x.length < 3 := by omega
+    simp [linearComparer, this] at h
+  obtain ⟨h1, h2⟩ := linear_best_mode h
+  refine ⟨fun m hm hf => h1 m hm ((holds_iff_fit m x y tol hl hn).mpr hf), ?_⟩
+  rcases h2 with h2 | ⟨m, hm, hh, hr⟩
+  · exact Or.inl h2
+  · exact Or.inr ⟨m, hm, (holds_iff_fit m x y tol hl hn).mp hh, hr⟩
+
+/-- F12, as a fact about the model: with expected samples 1, 2, 3 and the constant submission 100000 no proportional relation
+holds at tolerance 0.01 % — although the fit error is far below 0.01 % of the *student's* norm (the reference used before the fix) -/
+example : holds .proportional [100000, 100000, 100000] [1, 2, 3] (.pct (1 / 10000)) = false ∧
+    nearlyZero (err2 .proportional [100000, 100000, 100000] [1, 2, 3]) (sumL ([100000, 100000, 100000].map (fun a => a * a))) (.pct (1 / 10000)) = true := by
+  decide +kernel
+
+example : linearComparer ⟨some 1, some (1/2), none, none, "", "prop", "", ""⟩ [100000, 100000, 100000] [1, 2, 3] (.pct (1 / 10000)) = .ok (0, "") ∧
+    linearComparer ⟨some 1, some (1/2), none, none, "", "prop", "", ""⟩ [3, 6, 9] [1, 2, 3] (.pct (1 / 10000)) = .ok (1/2, "prop") := by
+  decide +kernel
 
 /-- the `equals` relation at tolerance 0 is pointwise equality of the samples -/
 theorem equalsErr2_zero_iff : ∀ (x y : List Rat), x.length = y.length → (equalsErr2 x y = 0 ↔ x = y) := by
